@@ -29,6 +29,10 @@ def lib_prefixes():
 
 def menu(entry):
     """Finite menu of fault-free ops for one pool entry (the reference table's op axis)."""
+    if getattr(entry.family, 'defused', False):
+        # every document goes through the defusing pre-parse (SafeExpatParser / pulldom)
+        return [{'api': api, 'lazy': lazy, 'defuse': 'always'} for lazy in (0, 1)
+                for api in ('iter_errors', 'is_valid', 'decode_lax', 'validate')]
     m = []
     for lazy in (0, 1):
         m.append({'api': 'iter_errors', 'lazy': lazy})
@@ -180,7 +184,7 @@ def exec_op(schema, entry, env, op, counters=None):
         out['res'] = find_probe(schema, entry)
         return out
 
-    call = {k: v for k, v in op.items() if k not in ('doc', 'abort', 'ns')}
+    call = {k: v for k, v in op.items() if k not in ('doc', 'abort', 'ns')}   # incl. 'defuse'
     hooks = {}
     if op.get('ns'):
         hooks['namespaces'] = family_ns(entry)
